@@ -98,7 +98,10 @@ func (fn *TrieTree) Set(k string, field unsafe.Pointer) bool {
 		c := *(*byte)(rt.IndexPtr(ks, byteTypeSize, i))
 		j := ascii2Int(c)
 		if int(j) >= len(fs) {
-			tmp := make([]TrieNode, j+1)
+			// NOTICE: keep one zeroed node after the last index. The shipped native trie_get tests
+			// `j > len` instead of `j >= len`, so for j == len it reads the node right after the slice;
+			// the spare capacity makes that read land on an empty node instead of foreign memory.
+			tmp := make([]TrieNode, j+1, int(j)+2)
 			copy(tmp, fs)
 			fs = tmp
 			fp.Index = tmp
